@@ -404,4 +404,5 @@ def run(ctx):
         names = core.names_for(c["n"])
         ctx.sample({"kind": c["kind"], "base": [core.cond_text((b, a), names) for _, b, a in c["base"]] if c["kind"] != "custom" else c["ranks"],
                     "precomputed": c["precomputed"], "failures": c["failures"], "meta": c["meta"], "ranks": impl.get("ref", {}).get("ranks")})
-        ctx.failures.extend(compare(c, impl))
+        for f in compare(c, impl):
+            ctx.fail(f, lambda f: core.generic_shrink(f, recheck, fields=("base", "queries", "failures", "precomputed", "lazy"), budget=30))
